@@ -94,6 +94,18 @@ struct Chk {
   bool require(const std::string& sub, bool cond, const std::string& msg = "") {
     return expect(sub, cond ? 0.0 : 1.0, 0.5, msg);
   }
+  // a bound that does not depend on the reference oracle (never triggers 50-digit confirmation)
+  bool bound(const std::string& sub, double val, double limit, const std::string& msg = "") {
+    nonoracle.insert(sub);
+    return expect(sub, val, limit, msg);
+  }
+  std::set<std::string> nonoracle;
+  // should this case be re-evaluated with the 50-digit oracle?
+  bool suspicious(double thr) const {
+    if (o.st == Outcome::FAIL) return true;
+    for (auto& m : o.margins) if (m.second > thr && !nonoracle.count(m.first)) return true;
+    return false;
+  }
   void inconclusive(const std::string& why) {
     if (o.st == Outcome::PASS) { o.st = Outcome::INCONCLUSIVE; o.msg = why; }
   }
